@@ -347,3 +347,46 @@ def persistence(ctx, prog):
     ctx.floor("C09-D2/UNIT", "db.get_address in get_local_status_and_history", len(rd), 1, site=gl.site(), func=gl.fi.qualname)
     ok = any(dotted(c.func) == "self.db.run" and c.args and dotted(c.args[0]) == "__many" for c in sb.calls())
     ctx.ob("C09-D4/DEP", ok, sb.site(), "through AIOSQLite.run (begin … commit / rollback)", func=sb.fi.qualname)
+
+
+_base_check_c09 = check
+
+
+def check(ctx):            # noqa: F811  (extends the rules above)
+    _base_check_c09(ctx)
+    fetching(ctx, ctx.prog)
+
+
+def fetching(ctx, prog):
+    """every requested transaction is fetched and handed on: batching, fetching and yielding under exactly the functions' own tests"""
+    rt = ctx.fa(f"{L}.request_transactions")
+    tr, ca = rt.fi.params()[1:3]
+    rv = [ca, "cached_tx is not None", "cached_tx.tx is not None", "cached_tx.tx.is_verified", "len(batches[-1]) == 100", "batches[-1]", "cache_hits"]
+    R.effect_table(ctx, "C09-D6/FETCH", rt, rv, [
+        ("batches = [[]]", "", "batching starts with one empty batch"),
+        ("remote_heights[txid] = height", "", "each transaction to fetch is remembered with its remote height"),
+        ("batches.append([])", "len(batches[-1]) == 100", "a full batch (100) opens a new one"),
+        ("batches[-1].append(txid)", "", "…and the transaction joins the current batch"),
+        ("batches.pop()", "not batches[-1]", "a trailing empty batch is dropped"),
+        ("txs = await self._single_batch(batch, remote_heights)", "", "every batch is fetched with the remembered heights"),
+        ("yield txs", "", "…and handed to the caller"),
+        ("continue", f"{ca} and cached_tx is not None and cached_tx.tx is not None and cached_tx.tx.is_verified", "only a verified cache hit is skipped (and only when the caller allowed the cache)"),
+    ], "fetch: ")
+    lp = rt.stmts(ast.For)
+    ok = len(lp) >= 2 and norm_text(lp[0].target) == "(txid, height)" and norm_text(lp[0].iter).startswith(f"sorted({tr}") and any(norm_text(f.iter) == "batches" and dotted(f.target) == "batch" for f in lp)
+    ctx.ob("C09-D6/FETCH", ok, rt.site(), "fetch: every requested (txid, height) pair is visited, and every batch built is processed", func=rt.fi.qualname)
+    dflt = {a.arg: d for a, d in zip(reversed(rt.node.args.args), reversed(rt.node.args.defaults))}
+    ctx.ob("C09-D6/FETCH", is_const(dflt.get(ca), False), rt.site(), "fetch: the cache is off unless asked for", func=rt.fi.qualname, key="C09-D6/FETCH|cached-default")
+    sb = ctx.fa(f"{L}._single_batch")
+    b, rh = sb.fi.params()[1:3]
+    R.effect_table(ctx, "C09-D6/FETCH", sb, [], [
+        (f"batch_result = await self.network.retriable_call(self.network.get_transaction_batch, {b}, not unrestriced)", "", "the batch is requested from the server"),
+        (f"remote_height = {rh}[txid]", "", "each result is paired with the height it was announced at"),
+        ("tx = Transaction(unhexlify(raw), height=remote_height)", "", "…parsed from the raw bytes at that height"),
+        ("txs[tx.id] = tx", "", "…kept under its own id"),
+        ("await self.maybe_verify_transaction(tx, remote_height, merkle)", "", "…and checked against the supplied merkle proof"),
+        ("return txs", "", "all of them are returned"),
+    ], "fetch: ")
+    lp = sb.stmts(ast.For)
+    ok = len(lp) == 1 and norm_text(lp[0].iter) == "batch_result.items()" and norm_text(lp[0].target) == "(txid, (raw, merkle))"
+    ctx.ob("C09-D6/FETCH", ok, sb.site(), "fetch: every transaction of the server's answer is processed", func=sb.fi.qualname)
